@@ -228,3 +228,63 @@ def svd_truncated(ctx, shape, index, ortho_l, ortho_r, cplx, max_rank):
         return r
     res = ctx.explore('svd truncated', body)
     ctx.check('at least one feasible path', len(res) >= 1)
+
+
+# ------------------------------------------------------------------ pinv with a relative cut
+def _ptrunc_grid(tier):
+    shapes = [({'rows': [2, 2], 'cols': [1, 1], 'ranks': [1, 2, 1]}, 1),
+              ({'rows': [2, 2, 2], 'cols': [1, 1, 1], 'ranks': [1, 2, 2, 1]}, 1),
+              ({'rows': [2, 2, 2], 'cols': [1, 1, 1], 'ranks': [1, 2, 2, 1]}, 2),
+              ({'rows': [3, 2], 'cols': [1, 1], 'ranks': [1, 2, 1]}, 1)]
+    if tier != 'quick':
+        shapes += [({'rows': [3, 3], 'cols': [1, 1], 'ranks': [1, 3, 1]}, 1), ({'rows': [2, 1, 2], 'cols': [1, 1, 1], 'ranks': [1, 2, 2, 1]}, 2)]
+    return [{'shape': sh, 'index': ix, 'scale': sc} for sh, ix in shapes for sc in (1, 64)]
+
+
+@scenario('C05', 'pinv_truncated', _ptrunc_grid)
+def pinv_truncated(ctx, shape, index, scale):
+    """t.pinv(index, threshold=theta) == u . diag(1/s) . v with the factors kept by t.svd(index, threshold=theta) (the relative cut), on every path
+    of a symbolic threshold; entries of the train divided by `scale` (small-amplitude data: relative and absolute cuts differ)"""
+    TT = ctx.R.TT
+    theta = ctx.scalar('theta', lo=(0,), hi=(1,))
+    label = 'pinv(threshold=theta) == u . diag(1/s) . v with the triplets kept by svd(threshold=theta)'
+
+    def cores():
+        cs = mk_cores(ctx, 'a', shape, False)
+        cs[0] = cs[0] * (ctx.const_frac(1, scale) if ctx.sym else 1.0 / scale)
+        return cs
+
+    if not ctx.sym:
+        if ctx.mode == 'tv':
+            from symtt.core import SkipTV
+            raise SkipTV()
+        t = TT(cores())
+        u, s, v = t.svd(index, threshold=theta)
+        p = TT(cores()).pinv(index, threshold=theta)
+        ok = p.ranks[index] == s.shape[0]
+        ctx.check(label, bool(ok and np.allclose(np.asarray(p.full()), np.asarray(_compose(ctx, u.cores, _diag(ctx, s, inv=True), v.cores)),
+                                                  rtol=1e-7, atol=1e-9 * float(np.max(1 / np.asarray(s))))))
+        return
+
+    def body():
+        from symtt import state, lapack
+        ex = state.S.explorer
+        state.reset(); state.S.explorer = ex
+        lapack.set_policy(lapack.FreePolicy(positive_spectrum='first'))
+        t = TT(cores())
+        u, s, v = t.svd(index, threshold=theta)
+        state.reset(); state.S.explorer = ex
+        for a in ctx.assumptions:
+            ex.assume(a)
+        lapack.set_policy(lapack.FreePolicy(positive_spectrum='first'))
+        p = TT(cores()).pinv(index, threshold=theta)
+        r = s.shape[0]
+        meta_ok(ctx, 'pinv(theta) rank %d' % r, p)
+        with ctx.group(label):
+            ctx.check('bond rank of pinv == number of kept singular values (path rank %d)' % r, p.ranks[index] == r)
+            if p.ranks[index] == r:
+                nz = [D._get(s, (i,)).re != 0 for i in range(r)]
+                ctx.eq('pinv == u . diag(1/s) . v (path rank %d)' % r, p.full(), _compose(ctx, u.cores, _diag(ctx, s, inv=True), v.cores), extra_assumptions=nz)
+        return r
+    res = ctx.explore('pinv truncated', body, cap=64)
+    ctx.check('at least one feasible path', len(res) >= 1)
